@@ -179,3 +179,28 @@ def stat_class(pos, neg):
         return "0" if n == 0 else "1" if n == 1 else "2-5" if n <= 5 else "6-40" if n <= 40 else "41-99" if n < 100 else "100+"
 
     return (bucket(len(pos)), bucket(len(neg)), "tw" if tie_in else "-", "tx" if tie_x else "-", pos.dtype.kind + neg.dtype.kind)
+
+
+FORMS = ["array", "array", "array", "list", "tuple", "readonly", "strided", "fortran2d"]
+
+
+def apply_form(a, form):
+    """Presents the same values in a different container / memory layout (the case stores `form`, so a replay rebuilds it)."""
+    a = np.asarray(a)
+    if form in (None, "array") or a.ndim == 0:
+        return a
+    if form == "list":
+        return a.tolist()
+    if form == "tuple":
+        return tuple(a.tolist())
+    if form == "readonly":
+        b = a.copy()
+        b.setflags(write=False)
+        return b
+    if form == "strided":  # non-contiguous view of a bigger buffer
+        buf = np.empty(2 * a.size + 1, dtype=a.dtype)
+        buf[::2][: a.size] = a.ravel()
+        return buf[::2][: a.size].reshape(a.shape)
+    if form == "fortran2d" and a.ndim >= 2:
+        return np.asfortranarray(a)
+    return a
